@@ -235,7 +235,7 @@ CLAIMED = {
             "matchers, fetcher-table growth, raw / HTTP / WebSocket connection set-up): unwind_releases_all (for EVERY failure point the held set "
             "equals the held set before, nothing released twice), at_most_one_response, table_not_left_dangling; the audit rejects the pre-repair "
             "routed-request ladder; startup_goto_ladders_audit / startup_failure_releases_all for the goto ladders of run_io (label for label, "
-            "tied to the real linux_io.c by the Startup component harness); json_duplicate_failure_leaks_nothing / json_duplicate_stops_at_first_failure / json_duplicate_children_ledger: cJSON_Duplicate under EVERY schedule of failing allocations gives back all it took and stops at the first failure (Cjet.Cjson.TreeOps, tied to the real cJSON.c: every allocation index of every generated item); json_add_member_failure_changes_nothing / _attaches_last / _conserves_blocks: add_item_to_object changes nothing when its key copy fails and leaves the item with the caller (the shape of F60), otherwise attaches it last with every block accounted for. Tie: single-fault enumeration — every allocation of every corpus scenario (all request types, teardown paths, "
+            "tied to the real linux_io.c by the Startup component harness); json_duplicate_failure_leaks_nothing / json_duplicate_stops_at_first_failure / json_duplicate_children_ledger: cJSON_Duplicate under EVERY schedule of failing allocations gives back all it took and stops at the first failure (Cjet.Cjson.TreeOps, tied to the real cJSON.c: every allocation index of every generated item); json_add_member_failure_changes_nothing / _attaches_last / _conserves_blocks: add_item_to_object changes nothing when its key copy fails and leaves the item with the caller (the shape of F60), otherwise attaches it last with every block accounted for; json_create_string_ledger: cJSON_CreateString returns the item with its two blocks or NULL with none. Tie: single-fault enumeration — every allocation of every corpus scenario (all request types, teardown paths, "
             "authentication, regressions) fails in turn (every index, both tiers) plus multi-fault runs, judged by "
             "ASan/UBSan/LSan, accounted heap, peers, descriptors, two liveness probes and at most one response per request.",
             TB + "The ladder transcriptions are by hand (per-step C line tables in docs/C15-proofs.md); one C allocation does not map one-to-one to a "
